@@ -324,6 +324,18 @@ def main():
                     cid = "%s:s%d:%s:%s:%s" % (hid, step, name, mname, form)
                     gnow = get_globals(api)
                     first_time = hd["first"] is None
+                    # observe the REAL cache state before the operation: is an FMM interface for the same (grids, mode, wavenumber)
+                    # already cached whose point cloud was built for another quadrature order?
+                    stale_cached_interface = False
+                    if assembler == "fmm" and first_time:
+                        from bempp_cl.api.integration.triangle_gauss import get_number_of_quad_points
+                        gid = hd["op"].domain.grid.id
+                        want_pts = get_number_of_quad_points(hd["eff"]["regular"]) * hd["op"].domain.grid.number_of_elements
+                        for key_, iface in list(fa._FMM_CACHE.items()):
+                            if key_[0] == gid and key_[1] == hd["op"].dual_to_range.grid.id and key_[2] == fa.get_mode_from_operator_identifier(hd["op"].descriptor.identifier) \
+                                    and key_[3] == (None if k is None else complex(k)) and iface.number_of_source_points != want_pts:
+                                stale_cached_interface = True
+                        hd["stale_cached_interface"] = stale_cached_interface
                     try:
                         got = observe_operator(hd["op"], X, form)
                         err = None
@@ -348,7 +360,7 @@ def main():
                     mutated = hd["explicit"] is not None and "mutated_to" in hd and tuple(hd["mutated_to"]) != (hd["eff"]["regular"], hd["eff"]["singular"])
                     mode_key = (mname, fam, k)
                     fmm_explicit_vs_global = assembler == "fmm" and (hd["eff"]["regular"] != g1["regular"])
-                    fmm_cached_other = assembler == "fmm" and mode_key in fmm_orders_cached and fmm_orders_cached[mode_key] != hd["eff"]["regular"]
+                    fmm_cached_other = assembler == "fmm" and bool(hd.get("stale_cached_interface"))
                     fmm_nearfield = assembler == "fmm" and g1["near_field"] != hd["eff"]["near_field"]
                     if assembler == "fmm" and first_time and mode_key not in fmm_orders_cached and err is None:
                         fmm_orders_cached[mode_key] = g1["regular"] if hd["explicit"] is None else hd["explicit"].quadrature.regular
